@@ -5,7 +5,7 @@ from lib import vlib
 
 def run_enum(pid, tier, seed, module, harness_mod, cfgs, witnesses, actions, rule, assumptions,
              harness_opts=(), sim=None, level="model_checking", exhaustive=True, post=None, extra_cov=None,
-             workers=6, heap="8g", case_filter=None):
+             workers=6, heap="8g", case_filter=None, shards=1):
     """cfgs: list of cfg names (model check + emit). witnesses: list of (cfg, devname).
     sim: optional (cfg, num, depth, timeout)."""
     t0 = time.time()
@@ -44,7 +44,11 @@ def run_enum(pid, tier, seed, module, harness_mod, cfgs, witnesses, actions, rul
     wd = vlib.workdir(pid)
     cpath = os.path.join(wd, "cases.ndjson")
     vlib.write_cases(cases, cpath)
-    rep = vlib.run_harness(harness_mod, cpath, os.path.join(wd, "report.json"), ["--seed=%d" % seed] + list(harness_opts))
+    if shards > 1 and len(cases) > 20000:
+        rep = vlib.run_harness_sharded(harness_mod, cases, wd, ["--seed=%d" % seed] + list(harness_opts), shards)
+        json.dump(rep, open(os.path.join(wd, "report.json"), "w"))
+    else:
+        rep = vlib.run_harness(harness_mod, cpath, os.path.join(wd, "report.json"), ["--seed=%d" % seed] + list(harness_opts))
     v.from_report(rep)
     if post:
         post(v, rep)
